@@ -5,7 +5,7 @@ import json, os, re, shutil, subprocess, sys, tempfile, xml.etree.ElementTree as
 pid = sys.argv[1]
 rnd = int(sys.argv[2]) if len(sys.argv) > 2 else 1
 wt = f'/tmp/seed-{pid}' if rnd == 1 else f'/tmp/seed{rnd}-{pid}'
-NAME = {1: {'a': 'a', 'b': 'b'}, 2: {'a': 'c', 'b': 'd'}, 3: {'a': 'e', 'b': 'f'}, 4: {'a': 'g', 'b': 'h'}, 5: {'a': 'i', 'b': 'j'}}[rnd]
+NAME = {1: {'a': 'a', 'b': 'b'}, 2: {'a': 'c', 'b': 'd'}, 3: {'a': 'e', 'b': 'f'}, 4: {'a': 'g', 'b': 'h'}, 5: {'a': 'i', 'b': 'j'}, 6: {'a': 'k', 'b': 'l'}}[rnd]
 base = json.load(open('/root/.vp/BASELINE.json'))
 want = set(base['stable_pass'])
 
